@@ -32,7 +32,7 @@ pkgdir() { case "$(grep -m1 '^package ' "$1" | awk '{print $2}')" in
 pkgs=""
 place() { for f in $dst/*_test.go; do d=$(pkgdir $f); cp $f $WT/$d/zz_seed_$(basename $f); case " $pkgs " in *" ./$d/ "*) ;; *) pkgs="$pkgs ./$d/";; esac; done; }
 unplace() { find $WT -name 'zz_seed_*_test.go' -delete; }
-rx='Seeded|Demo|TestC[0-9][0-9][ab]'
+rx="^($(grep -h '^func Test' $dst/*_test.go | sed -E 's/^func (Test[A-Za-z0-9_]*).*/\1/' | sort -u | paste -sd'|'))\$"
 place
 echo "## demo WITHOUT the change (must pass): $pkgs" >> $log
 (cd $WT && timeout 600 go test -count=1 -run "$rx" $pkgs -timeout 500s) >> $log 2>&1; without=$?
@@ -72,9 +72,9 @@ fi
 okpk=$(grep -c "^ok" $dst/suite.log)
 echo "RESULT without=$without build=$build with=$with ok_packages=$okpk hard_fail=$hard" >> $log
 ok=false; if [ $without -eq 0 ] && [ $build -eq 0 ] && [ $with -ne 0 ] && [ $hard -eq 0 ] && [ $okpk -ge 16 ]; then ok=true; fi
-python3 - "$p" "$v" "$pkgs" "$ok" "$without" "$with" "$hard" "$okpk" <<'PY'
+python3 - "$p" "$v" "$pkgs" "$ok" "$without" "$with" "$hard" "$okpk" "$BASE" <<'PY'
 import json,sys,os
-p,v,pkgs,ok,without,withc,hard,okpk=sys.argv[1:]
+p,v,pkgs,ok,without,withc,hard,okpk,base=sys.argv[1:]
 d=f"/verif/seeded/{p}-{v}"
 meta={}
 old=d+"/meta.json"
@@ -82,9 +82,9 @@ if os.path.exists(old):
     try: meta=json.load(open(old))
     except Exception: meta={}
 meta.update({"property":p,"variant":v,"breaks":p,"demo_packages":pkgs.split(),"confirmed":ok=="true",
- "ran":{"base":"/repo at 257ec47 (the tree the seed was written against)","demo_without_change_exit":int(without),"demo_with_change_exit":int(withc),
+ "ran":{"base":"/repo at "+base+" (newest commit whose files match the patch's pre-image)","demo_without_change_exit":int(without),"demo_with_change_exit":int(withc),
         "suite_ok_packages_with_change":int(okpk),"non_flaky_suite_failures_with_change":int(hard),
-        "commands":["go test -run 'Seeded|Demo|TestC[0-9][0-9][ab]' <demo packages> (without, then with patch.diff)","go build ./...",
+        "commands":["go test -run 'Seeded|Demo|TestC[0-9][0-9][a-d]' <demo packages> (without, then with patch.diff)","go build ./...",
                     "go test -mod=mod -vet=off -count=1 -timeout 25m -skip 'TestRemoteDeletionPool$' ./... (with patch.diff, demos removed)"]}})
 meta.setdefault("needs_to_manifest","see notes.md (written by the independent sub-agent that produced the change)")
 meta.setdefault("detected_by",None)
